@@ -1,11 +1,91 @@
-"""C20 — rules not implemented yet (fail closed)."""
-EXPLANATION = "not implemented"
-NOT_DECIDED = "everything"
+"""C20 — Datagroup and Dataset behave as dictionaries; equality is by content."""
+from __future__ import annotations
+
+import ast
+
+from ..flow import enumerate_paths
+from ..source import norm
+from . import dg_rules as dg
+from .common import is_name, params, returns_of, single_return
+
+EXPLANATION = (
+    "Static rules on core/datagroup.py and core/dataset.py: (R1) __iter__, __len__, __delitem__, keys, items, values, get, "
+    "pop, clear of both classes delegate to the same-named dict method of the backing dict with the same arguments "
+    "(Dataset.clear also clears meta); (R2) gates dominate stores: Datagroup's shape gate (as C06.R1/R2), Dataset's "
+    "isinstance(value, Datagroup) test + TypeError precede the store, name and parent are set on every accepted insertion, "
+    "constructors and update insert through __setitem__, single writer of each backing dict; (R3) Datagroup.__eq__ is "
+    "evaluated over abstract cases (key sets equal/different; per member: no / some / all elements differ; Vector members "
+    "differing by a norm-preserving change) with a model of osyris truthiness (a 0-d Array is falsy; np.any on an Array "
+    "returns a 0-d Array) and must return the content-equality verdict in each.")
+NOT_DECIDED = "insertion order (Python dict); the element-wise comparison values themselves (numpy after unit conversion)"
+TRUSTED = ("CPython ast", "Python dict semantics", "model of Array truthiness/iteration (core/array.py __len__)")
 
 
-def not_implemented(run, tree):
-    run.rule("C20.R0", "stub")
-    run.unresolved("stub", "", "rules for C20 are not implemented yet")
+def r1_delegation(run, tree):
+    run.rule("C20.R1", "dict delegation table", "sibling agreement", "Python dict API", floor=18)
+    dg.check_delegation(run, tree, dg.DG, "_container")
+    dg.check_delegation(run, tree, dg.DS, "groups")
 
 
-RULES = [not_implemented]
+def r2_gates(run, tree):
+    run.rule("C20.R2", "gates dominate stores; every stored item renamed / parented; single writers", "path rule", "", floor=8)
+    dg.check_setitem_gate(run, tree)
+    dg.check_single_writer(run, tree, dg.DG, "_container")
+    dg.check_insertion_via_setitem(run, tree, dg.DG, ["__init__", "update"])
+    # Dataset.__setitem__
+    ci = tree.cls(dg.DS)
+    fi = tree.method(ci, "__setitem__")
+    run.analysed(fi)
+    pn = params(fi)
+    SELF, KEY, VAL = pn
+    n_store = 0
+    for path in enumerate_paths(fi.node.body):
+        typed = False
+        stored = named = parented = False
+        for it in path:
+            if it[0] == "test":
+                t = it[1]
+                neg = False
+                while isinstance(t, ast.UnaryOp) and isinstance(t.op, ast.Not):
+                    neg = not neg
+                    t = t.operand
+                if isinstance(t, ast.Call) and is_name(t.func, "isinstance") and is_name(t.args[0], VAL):
+                    r = tree.resolve_expr(fi.module, t.args[1])
+                    if getattr(r, "qual", None) == dg.DG:
+                        if (it[2] and not neg) or (not it[2] and neg):
+                            typed = True
+            elif it[0] == "stmt":
+                st = it[1]
+                src = norm(st)
+                is_store = src in ("%s.groups.__setitem__(%s, %s)" % (SELF, KEY, VAL), "%s.groups[%s] = %s" % (SELF, KEY, VAL))
+                if is_store:
+                    stored = True
+                    n_store += 1
+                if src == "%s.name = %s" % (VAL, KEY):
+                    named = True
+                if src == "%s.parent = %s" % (VAL, SELF):
+                    parented = True
+                if (is_store or src.startswith("%s." % VAL) and isinstance(st, ast.Assign)) and not typed:
+                    run.violated(dg.DS + ".__setitem__::effect-before-type-gate", fi.where(st),
+                                 "`%s` executes although the value was not shown to be a Datagroup" % src[:60],
+                                 "ds['x'] = an Array: stored (or renamed) instead of raising TypeError")
+        if path[-1][1] != "raise" and stored:
+            run.ob(dg.DS + ".__setitem__::name-and-parent", named and parented, fi.where(),
+                   "accepted insertion sets name=%s parent=%s" % (named, parented),
+                   "ds['gas'] = group leaves group.name / group.parent stale (extract_* and layer lookups use them)")
+        if path[-1][1] != "raise" and not stored:
+            run.violated(dg.DS + ".__setitem__::no-store", fi.where(), "a non-raising path stores nothing", "ds['x'] = group")
+    raises = any(p[-1][1] == "raise" for p in enumerate_paths(fi.node.body))
+    run.ob(dg.DS + ".__setitem__::rejects-non-datagroup", raises and n_store > 0, fi.where(),
+           "non-Datagroup values %s" % ("raise" if raises else "are accepted"), "ds['x'] = 3")
+    dg.check_single_writer(run, tree, dg.DS, "groups", allowed_store=("__setitem__",), allowed_rebind=("__init__",))
+    dg.check_insertion_via_setitem(run, tree, dg.DS, ["__init__", "update"])
+
+
+def r3_equality(run, tree):
+    run.rule("C20.R3", "equality quantifier: equal iff same keys and no element of any member differs",
+             "D7 abstract cases", "", floor=9)
+    dg.check_eq_quantifier(run, tree)
+
+
+RULES = [r1_delegation, r2_gates, r3_equality]
